@@ -111,11 +111,11 @@ def active_params(o, out=None, prefix=""):
 
 
 def has_nested_further(nodes, inside=False):
-    """a .multiple object with a further master occurrence inside a .multiple scope (finding class D9)"""
+    """a .multiple object with a further (or commented-out) master occurrence inside a .multiple scope (finding class D9)"""
     for n in nodes:
         if n["dis"]:
             continue
-        if n["multiple"] and inside and n.get("further"):
+        if n["multiple"] and inside and (n.get("further") or n.get("dis_further")):
             return True
         if n["k"] == "s" and has_nested_further(n["kids"], inside or n["multiple"]):
             return True
